@@ -39,3 +39,13 @@ func GenOrder(t *rapid.T) *OrderCase {
 	c.Between = rapid.SliceOfN(rapid.IntRange(0, 2), 0, 3).Draw(t, "between")
 	return c
 }
+
+func GenBurst(t *rapid.T) *BurstCase {
+	c := &BurstCase{Ambient: genAmbient(t), N: rapid.SampledFrom([]int{20, 50, 200, 300, 400}).Draw(t, "n"), Rounds: rapid.IntRange(2, 6).Draw(t, "rounds"), Procs: rapid.SampledFrom([]int{2, 4, 16, 16}).Draw(t, "procs")}
+	nh := rapid.IntRange(1, 2).Draw(t, "nh")
+	for i := 0; i < nh; i++ {
+		c.Handlers = append(c.Handlers, H{Ctx: rapid.Bool().Draw(t, "ctx"), Async: true})
+	}
+	c.Spin = rapid.SliceOfN(rapid.SampledFrom([]int{0, 0, 1, 10, 100}), 0, 4).Draw(t, "spin")
+	return c
+}
